@@ -787,6 +787,16 @@ def k6_one_way_table(ctx, K: Kinds) -> None:
                     continue
                 n += 1
                 kk, kv = K.kind(c.func.value.slice, f), K.kind(c.args[0], f)
+                # compaction must be loss-free: the only edges that may be left out are self-loops
+                ktxt, vtxt = norm(c.func.value.slice), norm(c.args[0])
+                extra = [(norm(e), p) for e, p in C.flatten_guards(C.guards(f, c))
+                         if not (p and norm(e) in (f"{ktxt} != {vtxt}", f"{vtxt} != {ktxt}"))
+                         and not ((not p) and norm(e) in (f"{ktxt} == {vtxt}", f"{vtxt} == {ktxt}"))]
+                if extra and mname == "get_one_way_vertices":
+                    ctx.violation("K6", c, f"one-way edges are dropped from the stored adjacency table under {extra}: the table is rewritten in place, "
+                                  "so an edge forgotten at one specification check is missing when the rest of its cycle arrives later "
+                                  "(the answer then depends on when the search was interrupted)")
+                    continue
                 if is_rep(kk) and is_rep(kv):
                     ctx.ok("K6", f"EquivalenceDB.{mname}: {norm(c)} stores representatives")
                 else:
